@@ -11,7 +11,7 @@
     Nothing else is assumed about [iso]: in particular the theorems cover the transitivity shortcut of the code
     (an item is compared only with the FIRST member of each class / with one stored template per class). *)
 From Coq Require Import List NArith ZArith Bool Arith Permutation.
-From SK Require Import lib.LGraph lib.C13_Partition model.C13_Model proof.C13_Proof proof.C13_More proof.C13_Iso proof.C13_Templates.
+From SK Require Import lib.LGraph lib.C13_Partition model.C13_Model proof.C13_Proof proof.C13_More proof.C13_Iso proof.C13_Templates proof.C13_Clusters.
 Import ListNotations.
 
 (** 1. GraphCluster.fit / iterative_cluster: every item gets exactly one class (the list of classes has the length
@@ -287,3 +287,14 @@ Theorem C13_fit_then_lib_check :
   ((forall x, In x data -> iso x y = false) -> ~ In c cs /\ snd (lib_check iso mode y ts) = ts ++ [(y, c)]).
 Proof. exact fit_then_lib_check. Qed.
 Print Assumptions C13_fit_then_lib_check.
+
+(** ** 8. the [clusters] list itself is a partition of the indices: no index occurs twice (within one cluster or in
+    two clusters) whatever the isomorphism test answers, and with a reflexive test every index 0..n-1 occurs *)
+Theorem C13_clusters_partition :
+  forall (iso : item -> item -> bool) (mode : attr_mode) (data : list item),
+  NoDup (concat (fst (gc_iterative iso mode data))) /\
+  ((forall x, In x data -> iso x x = true) ->
+   forall i, i < length data ->
+   exists c, c < length (fst (gc_iterative iso mode data)) /\ In i (nth c (fst (gc_iterative iso mode data)) [])).
+Proof. exact (fun iso mode data => conj (clusters_disjoint iso mode data) (clusters_cover iso mode data)). Qed.
+Print Assumptions C13_clusters_partition.
